@@ -9,6 +9,7 @@ import (
 	"slices"
 	"strings"
 	"unicode"
+	"unicode/utf8"
 
 	"github.com/fatih/color"
 	"github.com/jstemmer/go-junit-report/v2/junit"
@@ -252,7 +253,7 @@ func buildPrettyViolationsTable(violations []report.Violation) string {
 
 		if violation.Location.Text != nil {
 			if len(*violation.Location.Text) > 117 {
-				table.Append([]string{yellow("Text:"), (*violation.Location.Text)[:117] + "..."})
+				table.Append([]string{yellow("Text:"), truncate(*violation.Location.Text, 117) + "..."})
 			} else {
 				table.Append([]string{yellow("Text:"), strings.TrimSpace(*violation.Location.Text)})
 			}
@@ -524,6 +525,16 @@ func (tr JUnitReporter) Publish(_ context.Context, r report.Report) error {
 	}
 
 	return testSuites.WriteXML(tr.out)
+}
+
+// truncate returns the longest prefix of s that is at most n bytes long and does not end inside
+// a UTF-8 encoded rune. It must only be called with n < len(s).
+func truncate(s string, n int) string {
+	for n > 0 && !utf8.RuneStart(s[n]) {
+		n--
+	}
+
+	return s[:n]
 }
 
 // xmlCharData replaces every rune that must not appear in an XML 1.0 document by U+FFFD, which is what
